@@ -383,6 +383,18 @@ _amend("C14", "rule", "Non-trivial", "In one case of three the handler sets its 
 _amend("C16", "rule", "Oracle: valid => nil error and an instantiated path routes to the method;", "Oracle: valid => nil error and instantiated paths (one fixed, two generated with wildcards steered towards literals the base rules spell) route to the method;")
 _amend("C18", "rule", "gRPC, gRPC-web),", "gRPC, gRPC-web with grpc-encoding absent / identity / gzip),")
 _amend("C19", "rule", "compared annotation vs config;", "compared annotation vs config (in 1 of 3 multi-binding cases the config first selects the method with the primary binding alone and then with the full rule);")
+_amend("C03", "rule", "Non-trivial", "In a quarter of the cases a second service is registered on the mux after the one under test (the routing state is copied on every registration). Non-trivial")
+_amend("C04", "rule", "GET or POST", "0-2 later registrations on the same mux, GET or POST")
+_amend("C05", "rule", "One gRPC-family call in three negotiates per-message gzip", "One gRPC-web call in three uses the +json message sub-codec; one gRPC-family call in three negotiates per-message gzip")
+_amend("C06", "rule", "WebSocket over a real connection)", "WebSocket over a real connection, its messages optionally fragmented and its closing 1000 frame with or without a reason text)")
+_amend("C09", "rule", "under 8 mux configurations" if False else "x 0-4 headers from a hostile pool", "x 0-4 headers from a hostile pool or list-valued headers (Accept, Accept-Encoding, ...) assembled from hostile elements")
+_amend("C09", "level_note", "A 20 s watchdog converts a genuine hang into exit 2 with the input printed; it is never itself a verdict.", "A request that does not return within 10 s is served again on a fresh mux: twice in a row is the violation 'wedged' (the clause 'never loops without consuming input' is only observable through a clock), once is inconclusive (exit 2). 16 mux configurations incl. a user codec without stream framing.")
+_amend("C14", "rule", "Non-trivial", "Besides the unary method a server-streaming one sends 0-2 replies (gRPC, gRPC-web, HTTP). Non-trivial")
+_amend("C16", "rule", "a field-path fault,", "a field-path fault (unknown names, scalars, repeated fields, paths stepping into map entries),")
+_amend("C18", "rule", "handler header/trailer metadata,", "handler header/trailer metadata, one HTTP request in eight with a query string the method refuses (the stats sequence must still be closed),")
+
+_amend("C11", "rule", "Non-trivial", "After every step 20 probes per service (7 services; HTTP annotated route, implicit route over HTTP and gRPC, a route with a path variable and a query, and a Tree binding that shares route-tree nodes with other services' bindings). Backend B2 is built from a copy of the schema with reversed field declaration order; B3 serves two services declared in one proto file. Non-trivial")
+
 # native coverage-guided fuzzing of the same generators (thorough tier only)
 for _k, _t in (("C01", "FuzzRoute"), ("C03", "FuzzTranscode"), ("C16", "FuzzRegister"), ("C17", "FuzzCodec")):
     PROPS[_k]["fuzz"] = {"target": _t, "seconds": 120}
